@@ -2527,6 +2527,10 @@ static Node *new_add(Node *lhs, Node *rhs, Token *tok) {
     rhs = tmp;
   }
 
+  // Neither operand is a pointer (e.g. a struct or a function).
+  if (!lhs->ty->base)
+    error_tok(tok, "invalid operands");
+
   // VLA + num
   if (lhs->ty->base->kind == TY_VLA) {
     rhs = new_binary(ND_MUL, rhs, new_var_node(lhs->ty->base->vla_size, tok), tok);
@@ -2546,6 +2550,10 @@ static Node *new_sub(Node *lhs, Node *rhs, Token *tok) {
   // num - num
   if (is_numeric(lhs->ty) && is_numeric(rhs->ty))
     return new_binary(ND_SUB, lhs, rhs, tok);
+
+  // `num - ptr`, struct operands and the like
+  if (!lhs->ty->base)
+    error_tok(tok, "invalid operands");
 
   // VLA + num
   if (lhs->ty->base->kind == TY_VLA) {
